@@ -252,9 +252,17 @@ class TileLayer(object):
             raise RequestError('The requested tile is outside the bounding box'
                                ' of the tile map.', request=tile_request,
                                code='TileOutOfRange')
+        flip = False
         if tile_request.origin == 'nw' and self.grid.origin not in ('ul', 'nw'):
-            tile_coord = self.grid.flip_tile_coord(tile_coord)
+            flip = True
         elif tile_request.origin == 'sw' and self.grid.origin not in ('ll', 'sw', None):
+            flip = True
+        if flip:
+            # rows can only be counted from the other edge if the tiles end at that edge of the grid on all levels
+            if not self.grid.supports_access_with_origin(tile_request.origin):
+                raise RequestError('The tile origin of the request is incompatible with the grid'
+                                   ' of the tile map.', request=tile_request,
+                                   code='TileOutOfRange')
             tile_coord = self.grid.flip_tile_coord(tile_coord)
 
         return tile_coord
